@@ -2,6 +2,7 @@
 swarm-style from a seeded PRNG; printed as a .l file for a given API flavour;
 compiled into per-(condition, bol) Matchers for the reference model."""
 from __future__ import annotations
+import os
 import random
 from . import rx
 
@@ -287,6 +288,8 @@ class Scenario:
         o.append('#define SIM_HAS_TABLES %d' % int(self.tables_file))
         o.append('#define SIM_USER_INPUT %d' % int(self.user_input))
         o.append('#define SIM_READ_SYSCALL %d' % int(bool(self.use_read) and not self.user_input))
+        if self.flavor == 'cxx':
+            o.append('#define SimLexer SimLexer_%s' % self.name)   # one class per scanner of a program
         o.append('#include "sim_pre.h"')
         o.append('%}')
         opts = ['noyyalloc', 'noyyrealloc', 'noyyfree', 'nounistd']
@@ -302,6 +305,8 @@ class Scenario:
             opts.append('stack')
         if self.flavor in ('r',):
             opts.append('reentrant')
+        if self.flavor == 'cxx':
+            opts.extend(['c++', 'yyclass="SimLexer_%s"' % self.name, 'noyywrap'])
         if self.flavor == 'c99':
             opts.append('emit="c99"')
             opts.append('noyypanic')
@@ -507,6 +512,8 @@ def gen_scenario(rng, want=None, forbid=()):
             walk(r.trail)
     # configuration
     sc.flavor = rng.choice(want.pop('flavors', ['nr', 'r']))
+    if os.environ.get('VERIF_FORCE_FLAVOR') and 'flavor' not in want:
+        sc.flavor = os.environ['VERIF_FORCE_FLAVOR']      # experiment knob
     sc.tables = rng.choice(TABLE_OPTS)
     sc.bits = 8
     sc.interactive = rng.choice([None, None, 'interactive', 'batch', 'always-interactive', 'never-interactive'])
@@ -520,7 +527,6 @@ def gen_scenario(rng, want=None, forbid=()):
     sc.buf_size = rng.choice([None, None, 1, 2, 3, 4, 5, 7, 8, 9, 15, 16, 17, 63, 64, 200])
     for k, v in want.items():
         setattr(sc, k, v)
-    import os
     if os.environ.get('VERIF_FORCE_TABLES') is not None:
         # experiment knob (directed exploration of one table representation)
         sc.tables = os.environ['VERIF_FORCE_TABLES']
@@ -547,6 +553,10 @@ def gen_scenario(rng, want=None, forbid=()):
         sc.rules.append(Rule(pat=rx.cls(rx.ALL), conds=[], star=(nc > 1)))
         sc.c99_catchall = True
         sc.array = False
+    if sc.flavor == 'cxx':
+        # %array and serialized tables do not exist for C++ scanners
+        sc.array = False
+        sc.yylmax = None
     if sc.fulltbl() and sc.interactive in ('interactive', 'always-interactive'):
         sc.interactive = rng.choice([None, 'batch', 'never-interactive'])
     return sc
